@@ -110,6 +110,15 @@ def cases(rng, tier, shard, nshards):
             yield dict(family=fam, tree=tree, singularity=sing, z0=z0, n=int(rng.integers(1, 14)), inner_n=int(rng.integers(1, 14)),
                        nested=True, r=None)
             continue
+        if rng.random() < 0.05:
+            # a slowly varying function (its good radius is 20+ growth steps from the default one) with the iteration cap raised
+            # explicitly, as the documentation suggests, and nothing else changed
+            fam2 = str(rng.choice(['exp', 'sin', 'cos']))
+            a2 = float(np.round(rng.uniform(0.05, 0.2), 3)) * (1 if rng.random() < 0.5 else -1)
+            yield dict(family=fam2, tree=('fn', fam2, ('mul', ('c', a2), ('x',))), singularity=None, z0=z0, n=int(rng.integers(12, 21)),
+                       r=None, step_ratio=None, num_extrap=None, max_iter=int(rng.choice([40, 50, 60])),
+                       via=str(rng.choice(['taylor', 'derivative', 'Taylor'])))
+            continue
         if not default_r and rng.random() < 0.2:
             # an initial radius already close to where the search settles, with the shortest extrapolation: the search ends after
             # the minimum number of circles (few rows reach the final selection)
@@ -203,6 +212,9 @@ def run_case(case, ctx):
     kw = dict(full_output=True)
     if case['r'] is not None:
         kw.update(r=case['r'], step_ratio=case['step_ratio'], num_extrap=case['num_extrap'])
+    if case.get('max_iter'):
+        kw['max_iter'] = case['max_iter']
+        ctx.count('iteration_cap_raised_explicitly')
     _T.clear()
     try:
         with np.errstate(all='ignore'):
